@@ -175,8 +175,20 @@ def build_worklist(dev, wl):
 # --------------------------------------------------------------------------- executing one call
 
 
+def py_excl(x):
+    """an exclusion-list entry: an int, or {"bad": "float:3.5" | "str:12" | "none"} for something that is not a well number"""
+    if isinstance(x, dict):
+        kind, _, val = x["bad"].partition(":")
+        return {"float": lambda: float(val), "str": lambda: val, "none": lambda: None}[kind]()
+    return x
+
+
 def call(op, lws, wl):
     k = op["op"]
+    if k == "set_max":
+        # the diluter volume is a public attribute of the worklist; it may be re-assigned between calls (other tips / syringes)
+        wl.max_volume = to_float(op["v"])
+        return None
     if k == "add":
         return lws[op["lw"]].add(np_arg(op["wells"]), np_arg(op["vols"], to_float), op.get("label"), compositions=py_comps(op.get("comps")))
     if k == "remove":
@@ -236,7 +248,7 @@ def call(op, lws, wl):
         if op.get("exclude") is not None:
             # exclude_wells is typed Iterable[int]: lists, tuples, sets and one-shot iterators are legal
             conv = {"list": list, "tuple": tuple, "set": set, "iter": iter, "gen": lambda x: (y for y in x)}[op.get("exclude_type", "list")]
-            kwargs["exclude_wells"] = conv(list(op["exclude"]))
+            kwargs["exclude_wells"] = conv([py_excl(x) for x in op["exclude"]])
         return wl.reagent_distribution(py_text(op["src_label"]), py_int(op["src_start"]), py_int(op["src_end"]),
                                        py_text(op["dst_label"]), py_int(op["dst_start"]), py_int(op["dst_end"]),
                                        volume=py_vol(op["volume"]), **kwargs)
@@ -451,6 +463,8 @@ def run_program(case):
                 pass
         obs["steps"].append(step)
         capture()
+    if any(op["op"] == "set_max" for op in case["ops"]):
+        obs["no_model"] = True  # re-assigning max_volume is not an operation of the model: property oracles only
     obs["final"] = {
         "hist": [[[lab, [frac_str(Fraction(x)) if x == x and abs(x) != float("inf") else repr(x) for x in arr.flatten().tolist()]]
                   for lab, arr in lw.history] for lw in lws],
@@ -599,13 +613,21 @@ def e_washargs(a):
                g("fastwash", 1), g("low_volume", 0)))
 
 
+def e_excl(x, op):
+    """an entry that is not a well number at all is, for the model, an entry outside the destination range (both are refused)"""
+    if isinstance(x, dict):
+        ds = op["dst_start"]
+        return cz(ds - 1 if isinstance(ds, int) and not isinstance(ds, bool) else -1)
+    return cz(x)
+
+
 def e_rdargs(op):
     return ("{| rd_src_label := %s; rd_src_start := %s; rd_src_end := %s; rd_dst_label := %s; rd_dst_start := %s; "
             "rd_dst_end := %s; rd_volume := %s; rd_diti_reuse := %s; rd_multi_disp := %s; rd_exclude := %s; "
             "rd_liquid_class := %s; rd_direction := %s; rd_src_id := %s; rd_src_type := %s; rd_dst_id := %s; rd_dst_type := %s |}"
             % (e_text(op["src_label"]), e_int(op["src_start"]), e_int(op["src_end"]), e_text(op["dst_label"]),
                e_int(op["dst_start"]), e_int(op["dst_end"]), e_rvol(op["volume"]), cz(op.get("diti_reuse", 1)),
-               cz(op.get("multi_disp", 1)), copt(op.get("exclude"), lambda l: clist([cz(x) for x in l])),
+               cz(op.get("multi_disp", 1)), copt(op.get("exclude"), lambda l: clist([e_excl(x, op) for x in l])),
                e_text(op.get("liquid_class", "")), cstr(op.get("direction", "left_to_right")),
                e_text(op.get("src_rack_id", "")), e_text(op.get("src_rack_type", "")),
                e_text(op.get("dst_rack_id", "")), e_text(op.get("dst_rack_type", ""))))
